@@ -508,6 +508,9 @@ class Executor(object):
             if f == 'region':
                 v = self.cvalue(m.args[0], entry, entry, None)
                 return ('region', v)
+            if f == 'field':
+                v = self.cvalue(m.args[0], entry, entry, None)
+                return ('field', (v, ast.literal_eval(m.args[1])))
             if f == 'anything':
                 return ('any', None)
             if f == 'fresh_only':
@@ -522,6 +525,12 @@ class Executor(object):
             if kind == 'any':
                 return TRUE
             if kind == 'none':
+                continue
+            if kind == 'field':
+                obj, fname = v
+                home = self.reg.field_home(obj.pt.args[0], fname)
+                if home is not None and name == 'F:%s.%s' % (home[0], fname):
+                    out.append(Eq(r, obj.t))
                 continue
             if kind == 'ref':
                 if v.pt.kind == 'none':
@@ -1025,6 +1034,15 @@ class Executor(object):
                     continue
                 if f == 'fresh_only':
                     continue
+                if f == 'field':
+                    t = static_type(m.args[0])
+                    if t is not None and t.kind == 'obj':
+                        home = self.reg.field_home(t.args[0], ast.literal_eval(m.args[1]))
+                        if home is not None:
+                            pats.add(('arr', 'F:%s.%s' % (home[0], ast.literal_eval(m.args[1]))))
+                            continue
+                    pats.add('*')
+                    continue
             t = static_type(m)
             if t is None:
                 pats.add('*')
@@ -1046,8 +1064,10 @@ class Executor(object):
         out = set()
         for p in pats:
             if p == '*':
-                return set(n for n in names if n != '$srcs')
-            if p == 'held':
+                return set(n for n in names if n != '$srcs' and not n.endswith('.level') and not n.endswith('.sorted_iface'))
+            if isinstance(p, tuple) and p[0] == 'arr':
+                out.add(p[1])
+            elif p == 'held':
                 out.add('$held')
             elif p == 'L':
                 out |= set(n for n in names if n.startswith('L:'))
@@ -1107,6 +1127,14 @@ class Executor(object):
         else:
             return None
         out = []
+        for q in self.program.classes:
+            if q.split('.')[-1] == nm:
+                iq = q + '.__init__'
+                if iq in self.reg.contracts:
+                    return [('contract', self.reg.contracts[iq])]
+                if iq in self.program.functions:
+                    return [('func', iq, self.program.functions[iq][1])]
+                return [('none',)]
         for tgt, c in self.reg.contracts.items():
             if tgt.split('.')[-1] == nm:
                 out.append(('contract', c))
@@ -1145,9 +1173,11 @@ class Executor(object):
                         continue
                     cands = self._callee_candidates(n, st)
                     if not cands or depth > 3:
-                        out |= set(k for k in names if k != '$srcs')
+                        out |= set(k for k in names if k != '$srcs' and not k.endswith('.level') and not k.endswith('.sorted_iface'))
                         continue
                     for cand in cands:
+                        if cand[0] == 'none':
+                            continue
                         if cand[0] == 'contract':
                             c = cand[1]
                             if c.inline and c.target in self.program.functions:
@@ -1703,6 +1733,8 @@ class Executor(object):
         if k == 'opt':
             base = self.unwrap_opt(st, base, node)
             k = base.pt.kind
+        if idx.pt.kind == 'opt' and k in ('list', 'seq', 'str'):
+            idx = self.unwrap_opt(st, idx, node)
         if k in ('list', 'seq', 'str'):
             seq = self.list_content(st, base) if k == 'list' else base.t
             if idx.pt.kind != 'int':
@@ -1779,6 +1811,8 @@ class Executor(object):
         if k == 'opt':
             base = self.unwrap_opt(st, base, node)
             k = base.pt.kind
+        if idx.pt.kind == 'opt':
+            idx = self.unwrap_opt(st, idx, node)
         if k == 'list':
             seq = self.list_content(st, base)
             ln = Len(seq)
